@@ -197,3 +197,110 @@ func c15crit(run *Run) {
 	}
 	sh.Close()
 }
+
+// c15upd: stale state across updates.  One REAL cluster with subset balancing (both build modes), its hosts replaced
+// A -> B -> A' where A' has the addresses of A with CHANGED metadata / health; after every UpdateHosts the cluster's
+// published balancer must answer exactly like a balancer built afresh from the published host set.
+func c15upd(run *Run) {
+	r := run.R
+	seq := 0
+	for hix := 0; hix < run.N(60, 600); hix++ {
+		mode := []cluster.SubsetBuildMode{cluster.SubsetPreIndexBuildMode, cluster.SubsetFilterBuildMode}[hix%2]
+		cluster.SetSubsetBuildMode(mode)
+		pol := uint8(r.Intn(3))
+		dflt := map[string]string{}
+		if r.Bool() {
+			dflt[ssKeys[r.Intn(3)]] = ssVals[r.Intn(3)]
+		}
+		cfg := v2.Cluster{Name: "c15upd", ClusterType: v2.SIMPLE_CLUSTER, LbType: v2.LB_ROUNDROBIN, LBSubSetConfig: v2.LBSubsetConfig{
+			FallBackPolicy: pol, DefaultSubset: dflt, SubsetSelectors: [][]string{{"k1"}, {"k2"}, {"k1", "k2"}, {"k1", "k2", "k3"}}}}
+		cl := cluster.NewCluster(cfg)
+		info := cl.Snapshot().ClusterInfo()
+		n := 2 + r.Intn(4)
+		addrs := make([]string, n+2)
+		for i := range addrs {
+			seq++
+			addrs[i] = fmt.Sprintf("10.26.%d.%d:%d", (seq>>8)&255, seq&255, 1000+(seq>>16))
+		}
+		mkHosts := func(as []string) ([]types.Host, []map[string]string) {
+			var hs []types.Host
+			var ms []map[string]string
+			for _, a := range as {
+				m := map[string]string{}
+				for _, k := range ssKeys[:3] {
+					if r.Pct(80) {
+						m[k] = ssVals[r.Intn(3)]
+					}
+				}
+				h := cluster.NewSimpleHost(v2.Host{HostConfig: v2.HostConfig{Address: a, Weight: 1}, MetaData: api.Metadata(m)}, info)
+				if r.Pct(15) {
+					h.SetHealthFlag(api.FAILED_ACTIVE_HC)
+				} else {
+					h.ClearHealthFlag(api.FAILED_ACTIVE_HC)
+				}
+				hs = append(hs, h)
+				ms = append(ms, m)
+			}
+			return hs, ms
+		}
+		var log []string
+		for step, as := range [][]string{addrs[:n], addrs[2:], addrs[:n]} { // A -> B (overlapping) -> A with new attributes
+			hosts, metas := mkHosts(as)
+			cl.UpdateHosts(cluster.NewHostSet(hosts))
+			log = append(log, fmt.Sprintf("UpdateHosts %v", metas))
+			snap := cl.Snapshot()
+			published := snap.LoadBalancer()
+			var fresh types.LoadBalancer
+			if mode == cluster.SubsetPreIndexBuildMode {
+				fresh = cluster.NewSubsetLoadBalancerPreIndex(info, snap.HostSet())
+			} else {
+				fresh = cluster.NewSubsetLoadBalancer(info, snap.HostSet())
+			}
+			idOf := map[string]int{}
+			for i, h := range hosts {
+				idOf[h.AddressString()] = i
+			}
+			for q := 0; q < 6; q++ {
+				var c map[string]string
+				if q > 0 {
+					c = map[string]string{}
+					src := metas[r.Intn(len(metas))]
+					for _, k := range ssKeys[:3] {
+						if v, ok := src[k]; ok && r.Pct(60) {
+							c[k] = v
+						}
+					}
+				}
+				var mmc api.MetadataMatchCriteria
+				if c != nil {
+					mmc = router.NewMetadataMatchCriteriaImpl(c)
+				}
+				obs := func(lb types.LoadBalancer) string {
+					seen := map[int]bool{}
+					for k := 0; k < 2*len(hosts)+3; k++ {
+						if h := lb.ChooseHost(&ssCtx{lbCtx: lbCtx{ctx: variable.NewVariableContext(context.Background())}, mmc: mmc}); h != nil {
+							id, ok := idOf[h.AddressString()]
+							if !ok || hosts[id] != h {
+								id = -1 - id // a host object that is not in the published set (stale)
+							}
+							seen[id] = true
+						}
+					}
+					var ids []int
+					for id := range seen {
+						ids = append(ids, id)
+					}
+					sort.Ints(ids)
+					return fmt.Sprint(lb.HostNum(mmc), lb.IsExistsHosts(mmc), ids)
+				}
+				a, b := obs(published), obs(fresh)
+				run.Count(fmt.Sprintf("c15upd|%d|%d|%d", hix, step, q), step > 0, "subset-update:queries")
+				if a != b || strings.Contains(a, "-") {
+					run.Fail("subset:cluster-balancer-stale-after-update", fmt.Sprintf("build mode %d, criteria %v after %s: the cluster's balancer answers %s, a balancer built from the published host set %s", mode, c, strings.Join(log, " ; "), a, b),
+						map[string]interface{}{"part": "subset-update", "build_mode": mode, "history": append([]string{}, log...), "criteria": c})
+				}
+			}
+		}
+	}
+	cluster.SetSubsetBuildMode(cluster.SubsetPreIndexBuildMode)
+}
